@@ -393,8 +393,10 @@ def proxy_proof_gate(
     if config.mode == "off":
         raise ValueError("proxy_proof_gate called with mode='off'; install no gate instead")
 
+    # A proof is admissible while its age lies in [-skew, +skew], so a nonce
+    # must be remembered for the whole two-sided window, not just one side.
     cache = (
-        NonceCache(ttl_seconds=config.skew_seconds, capacity=config.replay_capacity)
+        NonceCache(ttl_seconds=2 * config.skew_seconds + 1, capacity=config.replay_capacity)
         if config.enable_replay_cache
         else None
     )
